@@ -111,3 +111,114 @@ pub fn stress_supplement(report: &mut Report, seconds: f64) {
         }),
     );
 }
+
+/// C07 / C12 sampling supplement (NOT part of the exhaustive claim): a window between
+/// two adjacent atomic steps of the version clock (load, then compare-exchange) cannot
+/// contain a scheduling point. Free-running writers with automatic timestamps hammer one
+/// key while another thread publishes one explicit timestamp far ahead of the clock;
+/// once every thread has returned, an automatic write must be accepted (nothing is
+/// concurrent any more, so a refusal is not excused by the property).
+pub fn clock_supplement(report: &mut Report, seconds: f64) {
+    crate::util::set_home_cpu(None);
+    Session::uninstall();
+    let dl = crate::util::Deadline::new(seconds);
+    let mut rounds = 0u64;
+    let mut refused = 0u64;
+    let mut first: Option<String> = None;
+    let store = match feoxdb::FeoxStore::builder().hash_bits(4).no_memory_limit().build() {
+        Ok(s) => std::sync::Arc::new(s),
+        Err(e) => {
+            report.machinery(format!("clock supplement: cannot build the store: {e:?}"));
+            return;
+        }
+    };
+    // three persistent hammer threads; the main thread publishes one explicit timestamp
+    // per round while they are writing, then stops them and probes at quiescence
+    let round_no = AtomicU64::new(0); // odd: hammering, even: idle
+    let entered = AtomicUsize::new(0);
+    let idle = AtomicUsize::new(0);
+    let wedged = AtomicBool::new(false);
+    let done = AtomicBool::new(false);
+    let progress = AtomicU64::new(0);
+    std::thread::scope(|sc| {
+        for t in 0..3u8 {
+            let (store, round_no, idle, done, progress, entered) = (&store, &round_no, &idle, &done, &progress, &entered);
+            sc.spawn(move || {
+                let mut seen = 0u64;
+                loop {
+                    // wait for the next hammering phase
+                    loop {
+                        if done.load(Ordering::Acquire) {
+                            return;
+                        }
+                        let r = round_no.load(Ordering::Acquire);
+                        if r % 2 == 1 && r > seen {
+                            seen = r;
+                            entered.fetch_add(1, Ordering::AcqRel);
+                            break;
+                        }
+                        std::hint::spin_loop();
+                    }
+                    let mut i = 0u32;
+                    while round_no.load(Ordering::Acquire) == seen {
+                        let _ = store.insert(b"k", &[t, i as u8]);
+                        progress.fetch_add(1, Ordering::Relaxed);
+                        i = i.wrapping_add(1);
+                    }
+                    idle.fetch_add(1, Ordering::AcqRel);
+                }
+            });
+        }
+        let mut far = 4_000_000_000_000_000_000u64; // far ahead of any wall clock
+        while !dl.expired() && first.is_none() {
+            far += 1_000_000;
+            idle.store(0, Ordering::Release);
+            entered.store(0, Ordering::Release);
+            let p0 = progress.load(Ordering::Relaxed);
+            let guard = std::time::Instant::now();
+            let stuck = |what: &str| -> bool {
+                if guard.elapsed().as_secs() >= 5 {
+                    wedged.store(true, Ordering::Release);
+                    eprintln!("clock supplement: gave up waiting for {what}");
+                    true
+                } else {
+                    false
+                }
+            };
+            round_no.fetch_add(1, Ordering::AcqRel); // odd: go
+            // every hammer thread has joined this round and writes are flowing
+            while (entered.load(Ordering::Acquire) < 3 || progress.load(Ordering::Relaxed) < p0 + 20) && !stuck("the writers to start") {
+                std::hint::spin_loop();
+            }
+            let _ = store.insert_with_timestamp(b"k", b"explicit", Some(far));
+            round_no.fetch_add(1, Ordering::AcqRel); // even: stop
+            while idle.load(Ordering::Acquire) < 3 && !stuck("the writers to stop") {
+                std::hint::spin_loop();
+            }
+            if wedged.load(Ordering::Acquire) {
+                break;
+            }
+            rounds += 1;
+            // quiescent: every call has returned
+            if let Err(e) = store.insert(b"k", b"after") {
+                refused += 1;
+                first = Some(format!(
+                    "C07: with every earlier call returned, insert(k) with an automatic timestamp was refused ({e:?}) after an accepted insert_with_timestamp(k, {far}) — no concurrent modification excuses the refusal (C12: the clock fell behind a published timestamp); found by the free-running sampling supplement in round {rounds}"
+                ));
+            }
+        }
+        done.store(true, Ordering::Release);
+        // let a writer that is still inside its loop leave it
+        round_no.fetch_add(2, Ordering::AcqRel);
+    });
+    if wedged.load(Ordering::Acquire) {
+        report.assumptions.push("the clock sampling supplement stopped early: its own threads did not rendezvous within 5 s".into());
+    }
+    if let Some(msg) = first {
+        report.violation("clock|stress-supplement|automatic write refused at quiescence".to_string(), msg, json!({"engine":"clock-stress"}));
+    }
+    report.set(
+        "sampling_supplement",
+        json!({"rounds": rounds, "refusals_at_quiescence": refused, "note": "free-running threads, not exhaustive, not counted in states/transitions"}),
+    );
+}
